@@ -445,6 +445,15 @@ Definition wrap (v : value) : result comp :=
   end.
 
 
+(* CompositeCanvas._drop_cursor_outside: forget a cursor whose row or column has been trimmed
+   away (cols()/rows() are those of the shards the canvas has at that moment) *)
+Definition drop_cursor_outside (s : shards) (c : coords) : coords :=
+  match cur c with
+  | Some (x, y) =>
+      if (0 <=? x) && (x <? shards_cols s) && (0 <=? y) && (y <? shards_rows s) then c else Coords None (pop c)
+  | None => c
+  end.
+
 (* CompositeCanvas.trim(top, count) *)
 Definition comp_trim (c : comp) (top : Z) (count : option Z) : result comp :=
   if top <? 0 then Err ValueError
@@ -459,7 +468,7 @@ Definition comp_trim (c : comp) (top : Z) (count : option Z) : result comp :=
                | Some n => if n =? 0 then Ok [] else shards_trim_rows s1 n
                end) with
         | Err e => Err e
-        | Ok s2 => Ok (Comp s2 (translate_coords (ccoords c) 0 (- top)) false)
+        | Ok s2 => Ok (Comp s2 (drop_cursor_outside s2 (translate_coords (ccoords c) 0 (- top))) false)
         end
     end.
 
@@ -471,7 +480,7 @@ Definition comp_trim_end (c : comp) (e : Z) : result comp :=
   else
     match shards_trim_rows (cshards c) (shards_rows (cshards c) - e) with
     | Err er => Err er
-    | Ok s => Ok (Comp s (ccoords c) false)
+    | Ok s => Ok (Comp s (drop_cursor_outside s (ccoords c)) false)
     end.
 
 (* CompositeCanvas.pad_trim_left_right(left, right) *)
@@ -496,7 +505,9 @@ Definition comp_pad_trim_left_right (c : comp) (left right : Z) : result comp :=
                  end
                else Ok s) with
         | Err e => Err e
-        | Ok s2 => Ok (Comp s2 (translate_coords (ccoords c) left 0) false)
+        | Ok s2 =>
+            let co := translate_coords (ccoords c) left 0 in
+            Ok (Comp s2 (if (left <? 0) || (right <? 0) then drop_cursor_outside s2 co else co) false)
         end
     end.
 
